@@ -1,4 +1,317 @@
-import Amoco.Model.Eval
+/-
+  C01 — Expression algebra preserves bit-vector meaning.
+
+  Property theorems about the executable model Amoco.Model.{Expr,Render,Simplify,Eval} of
+  `cas/expressions.py` (helper lemmas: Amoco/Proofs/Expr{Bits,Arith,Cst}.lean).  Values are natural
+  numbers with an explicit width; `binSem o signed w a b` / `unSem o w a` (Amoco.Model.Eval) are the
+  reference two's-complement meanings of the operators, `bitsOf a p s` the slice `a[p:p+s]`, `cat a wa b`
+  the composition `{ [0:wa]→a | [wa:…]→b }`.
+
+  One soundness lemma per rewrite rule, each for all widths and all operand values, so that a rule can be
+  re-proved alone; constant folding per operator (`cst_*`: the `cst` operator table returns the reference
+  value and the dictated width); shifts by any amount; rotations; extensions; conditionals.
+  The structural induction that threads these lemmas through `simplify`/`eval` is proved for widths and
+  well-formedness (C12: `Amoco.widthIH_all`); for values it is NOT finished: see `simplify_sound_partial`
+  at the end of this file for what is proved and which cases are missing.
+-/
+import Amoco.Proofs.ExprCst
+import Amoco.Proofs.ExprEvalWidth
+
 namespace Amoco.C01
-theorem placeholder : True := trivial
+
+open Amoco Amoco.Expr Amoco.Bits
+
+/-! ## rules of `eqn2_helpers` with a constant right operand -/
+
+/-- *mask_to_slice*: `(l & mask[i1..i2]) ⇒ { [0:i1]→0 | [i1:i2+1]→l[i1:i2+1] | [i2+1:w]→0 }` -/
+theorem mask_to_slice (a i1 i2 : Nat) (h : i1 ≤ i2) :
+    a &&& maskOf i1 i2 = (bitsOf a i1 (i2 + 1 - i1)) <<< i1 := Bits.mask_to_slice a i1 i2 h
+
+/-- `ismask(v)` of the code recognises exactly the contiguous masks (`maskBounds` is its model) -/
+theorem maskBounds_sound (v : Int) (i1 i2 : Nat) (h : maskBounds v = some (i1, i2)) :
+    0 < v ∧ v.toNat = maskOf i1 i2 := by
+  unfold maskBounds at h
+  split at h
+  · cases h
+  · rename_i hv
+    simp only at h
+    split at h
+    · rename_i hm
+      simp only [Option.some.injEq, Prod.mk.injEq] at h
+      obtain ⟨rfl, rfl⟩ := h
+      simp only [beq_iff_eq] at hm
+      exact ⟨by omega, by unfold maskOf; exact hm.symm⟩
+    · cases h
+
+/-- *shl_to_comp*: `(l << n) ⇒ { [0:n]→0 | [n:w]→l[0:w-n] }` for a constant `n ≤ w` -/
+theorem shl_to_comp (a w n : Nat) (h : n ≤ w) : binSem Op.lsl false w a n = if n = w then 0 else (bitsOf a 0 (w - n)) <<< n := by
+  simp only [binSem]
+  by_cases hn : n = w
+  · subst hn; simp
+  · have : ¬ n ≥ w := by omega
+    simp only [this, hn, if_false]
+    exact Bits.shl_to_comp a w n h
+
+/-- *shr_to_comp*: `(l >> n) ⇒ { [0:w-n]→l[n:w] | [w-n:w]→0 }` -/
+theorem shr_to_comp (a w n : Nat) (ha : a < 2 ^ w) : binSem Op.lsr false w a n = bitsOf a n (w - n) :=
+  Bits.shr_to_comp a w n ha
+
+/-- shifts by the width or more: `(l << n) ⇒ 0`, `(l >> n) ⇒ 0` (the repaired rule and constant table;
+    the unchanged tree raises `ValueError`) -/
+theorem shift_ge_width (a w n : Nat) (ha : a < 2 ^ w) (h : w ≤ n) :
+    binSem Op.lsl false w a n = 0 ∧ binSem Op.lsr false w a n = 0 := by
+  refine ⟨?_, Bits.shr_ge_width a w n ha h⟩
+  simp [binSem, h]
+
+/-- arithmetic shift by the width or more gives the sign fill -/
+theorem asr_ge_width (a w n : Nat) (ha : a < 2 ^ w) (h : w ≤ n) (sg : Bool) :
+    binSem Op.asr sg w a n = if a.testBit (w - 1) then 2 ^ w - 1 else 0 := Bits.asr_ge_width a w n ha h sg
+
+/-- `(l op 0) ⇒ l` for `| ^ + - >> <<` -/
+theorem op_zero_right (o : Op) (ho : o = Op.or ∨ o = Op.xor ∨ o = Op.add ∨ o = Op.sub ∨ o = Op.lsr ∨ o = Op.lsl)
+    (sg : Bool) (w a : Nat) (h : a < 2 ^ w) (hw : 0 < w) : binSem o sg w a 0 = a :=
+  Bits.op_zero_right o ho sg w a h hw
+
+/-- `(l op 0) ⇒ 0` for `& * **` -/
+theorem op_zero_absorb (o : Op) (ho : o = Op.and ∨ o = Op.mul) (sg : Bool) (w a : Nat) : binSem o sg w a 0 = 0 :=
+  Bits.op_zero_absorb o ho sg w a
+
+theorem mul2_zero (sg : Bool) (w a : Nat) : binSem Op.mul2 sg w a 0 = 0 := Bits.mul2_zero sg w a
+
+/-- `(l * 1) ⇒ l`, `(l / 1) ⇒ l` -/
+theorem mul_one (sg : Bool) (w a : Nat) (h : a < 2 ^ w) : binSem Op.mul sg w a 1 = a := Bits.mul_one sg w a h
+theorem div_one (w a : Nat) (h : a < 2 ^ w) : binSem Op.div false w a 1 = a := Bits.div_one_unsigned w a h
+
+/-- the repaired rule `(l ** 1) ⇒ l.extend(l.sf, 2w)`: the widening product with 1 is the extension of `l`
+    (zero extension for the unsigned reading, sign extension for the signed one); the unchanged tree returns
+    `l` itself, `w` bits wide (C12) -/
+theorem mul2_one (w a : Nat) (h : a < 2 ^ w) (hw : 0 < w) :
+    binSem Op.mul2 false w a 1 = cat a w 0 ∧
+    (1 < w → binSem Op.mul2 true w a 1 = cat a w (if a.testBit (w - 1) then 2 ^ w - 1 else 0)) := by
+  constructor
+  · simp only [binSem, Nat.mul_one, zext_value]
+    apply Nat.mod_eq_of_lt
+    calc a < 2 ^ w := h
+      _ ≤ 2 ^ (2 * w) := Nat.pow_le_pow_right (by decide) (by omega)
+  · intro hw1
+    rw [sext_value a w w h]
+    simp only [binSem]
+    have : toInt w 1 = 1 := by
+      unfold toInt
+      have : (1 : Nat).testBit (w - 1) = false := by
+        apply Nat.testBit_lt_two_pow
+        calc 1 < 2 ^ 1 := by decide
+          _ ≤ 2 ^ (w - 1) := Nat.pow_le_pow_right (by decide) (by omega)
+      simp [this]
+    rw [this, Int.mul_one, Nat.two_mul]
+    simp
+
+/-! ## `+` / `-` normalisation -/
+
+/-- *reassoc_pm (left)*: `((a lo c) o r) ⇒ ((a o r) lo c)` for `o, lo ∈ {+,-}` -/
+theorem reassoc_pm_left (o lo : Op) (ho : o = Op.add ∨ o = Op.sub) (hlo : lo = Op.add ∨ lo = Op.sub)
+    (sg1 sg2 sg3 sg4 : Bool) (w a c r : Nat) :
+    binSem o sg1 w (binSem lo sg2 w a c) r = binSem lo sg3 w (binSem o sg4 w a r) c :=
+  Bits.reassoc_pm_left o lo ho hlo sg1 sg2 sg3 sg4 w a c r
+
+/-- *reassoc_pm (right)*: `(l o (a ro c)) ⇒ ((l o a) (o·ro) c)` -/
+theorem reassoc_pm_right (o ro x : Op) (hx : Op.pm o ro = some x) (sg1 sg2 sg3 sg4 : Bool) (w l a c : Nat) :
+    binSem o sg1 w l (binSem ro sg2 w a c) = binSem x sg3 w (binSem o sg4 w l a) c :=
+  Bits.reassoc_pm_right o ro x hx sg1 sg2 sg3 sg4 w l a c
+
+/-- *merge_consts*: `((a lo c2) o c1) ⇒ (a lo (c2 (o·lo) c1))` -/
+theorem merge_consts (o lo x : Op) (hx : Op.pm o lo = some x) (sg1 sg2 sg3 sg4 : Bool) (w a c2 c1 : Nat) :
+    binSem o sg1 w (binSem lo sg2 w a c2) c1 = binSem lo sg3 w a (binSem x sg4 w c2 c1) :=
+  Bits.merge_consts o lo x hx sg1 sg2 sg3 sg4 w a c2 c1
+
+/-- `(l + (-r)) ⇒ (l - r)` -/
+theorem add_neg_to_sub (sg : Bool) (w l r : Nat) :
+    binSem Op.add sg w l (unSem Op.sub w r) = binSem Op.sub sg w l r := Bits.add_neg_to_sub sg w l r
+
+/-- operand order of `-` in `op.simplify`: `(l - r) ⇒ ((-r) + l)` -/
+theorem sub_swap (sg1 sg2 : Bool) (w l r : Nat) :
+    binSem Op.sub sg1 w l r = binSem Op.add sg2 w (unSem Op.sub w r) l := Bits.sub_swap sg1 sg2 w l r
+
+/-- operand order of the commutative operators (`l._is_cst` pushed right, lexical order of symbols) -/
+theorem comm_swap (o : Op) (ho : o = Op.add ∨ o = Op.mul ∨ o = Op.and ∨ o = Op.or ∨ o = Op.xor) (sg1 sg2 : Bool) (w a b : Nat) :
+    binSem o sg1 w a b = binSem o sg2 w b a := by
+  rcases ho with rfl | rfl | rfl | rfl | rfl <;> simp only [binSem]
+  · rw [Nat.add_comm]
+  · rw [Nat.mul_comm]
+  · rw [Nat.and_comm]
+  · rw [Nat.or_comm]
+  · rw [Nat.xor_comm]
+
+/-- the widening multiply commutes when both operands carry the same declared signedness -/
+theorem mul2_comm (sg : Bool) (w a b : Nat) : binSem Op.mul2 sg w a b = binSem Op.mul2 sg w b a := by
+  simp only [binSem]; rw [Nat.mul_comm a b, Int.mul_comm]
+
+/-! ## rules of `eqn1_helpers` -/
+
+/-- *neg_of_sum*: `-(a ro b) ⇒ ((-a) (−·ro) b)` -/
+theorem neg_of_sum (ro x : Op) (hx : Op.pm Op.sub ro = some x) (sg1 sg2 : Bool) (w a b : Nat) :
+    unSem Op.sub w (binSem ro sg1 w a b) = binSem x sg2 w (unSem Op.sub w a) b :=
+  Bits.neg_of_sum ro x hx sg1 sg2 w a b
+
+/-- `-(-x) ⇒ x` -/
+theorem neg_neg (w a : Nat) (h : a < 2 ^ w) : unSem Op.sub w (unSem Op.sub w a) = a := Bits.neg_neg w a h
+
+/-- *not_cond*: `~(a o b) ⇒ (a notop(o) b)`, for either declared reading of the ordered comparisons -/
+theorem not_cond (o o' : Op) (h : notop o = some o') (sg : Bool) (w a b : Nat) :
+    unSem Op.not 1 (binSem o sg w a b) = binSem o' sg w a b := Bits.not_cond o o' h sg w a b
+
+/-! ## conditions against a bit constant, `x op x` -/
+
+/-- *eq_bit*: `(c == 1) ⇒ c`, `(c == 0) ⇒ ~c`, `(c != 1) ⇒ ~c`, and the repaired `(c != 0) ⇒ c` -/
+theorem eq_bit (sg : Bool) (c : Nat) (h : c < 2) :
+    binSem Op.eq sg 1 c 1 = c ∧ binSem Op.eq sg 1 c 0 = unSem Op.not 1 c ∧
+    binSem Op.neq sg 1 c 1 = unSem Op.not 1 c ∧ binSem Op.neq sg 1 c 0 = c :=
+  ⟨eq_bit1 sg c h, eq_bit0 sg c h, neq_bit1 sg c h, neq_bit0 sg c h⟩
+
+/-- the unchanged tree rewrites `(c != 0)` to `~c`: wrong for both values of `c` -/
+theorem neq_bit0_unfixed_is_wrong (sg : Bool) (c : Nat) (h : c < 2) : binSem Op.neq sg 1 c 0 ≠ unSem Op.not 1 c := by
+  have : c = 0 ∨ c = 1 := by omega
+  rcases this with rfl | rfl <;> simp [binSem, unSem, b2n]
+
+/-- *x_op_x*: operands with the same meaning -/
+theorem x_op_x (sg : Bool) (w a : Nat) :
+    binSem Op.sub sg w a a = 0 ∧ binSem Op.xor sg w a a = 0 ∧ binSem Op.and sg w a a = a ∧ binSem Op.or sg w a a = a ∧
+    binSem Op.neq sg w a a = 0 ∧ binSem Op.lt sg w a a = 0 ∧ binSem Op.gt sg w a a = 0 ∧
+    binSem Op.eq sg w a a = 1 ∧ binSem Op.le sg w a a = 1 ∧ binSem Op.ge sg w a a = 1 :=
+  ⟨x_sub_x sg w a, x_xor_x sg w a, x_and_x sg w a, x_or_x sg w a,
+   x_cmp_x_false _ (Or.inl rfl) sg w a, x_cmp_x_false _ (Or.inr (Or.inl rfl)) sg w a, x_cmp_x_false _ (Or.inr (Or.inr rfl)) sg w a,
+   x_cmp_x_true _ (Or.inl rfl) sg w a, x_cmp_x_true _ (Or.inr (Or.inl rfl)) sg w a, x_cmp_x_true _ (Or.inr (Or.inr rfl)) sg w a⟩
+
+/-! ## slices, compositions, extensions, conditionals -/
+
+/-- *slice-of-slice* (`slc.__getitem__`, `slc.__init__` on a slice) -/
+theorem slice_of_slice (a p s q t : Nat) (h : q + t ≤ s) : bitsOf (bitsOf a p s) q t = bitsOf a (p + q) t :=
+  Bits.slice_of_slice a p s q t h
+
+/-- *slice-of-comp* (`comp.__getitem__`): a slice inside the low / the high part -/
+theorem slice_of_comp (a wa b p s : Nat) (ha : a < 2 ^ wa) :
+    (p + s ≤ wa → bitsOf (cat a wa b) p s = bitsOf a p s) ∧ (wa ≤ p → bitsOf (cat a wa b) p s = bitsOf b (p - wa) s) :=
+  ⟨slice_cat_low a wa b p s ha, slice_cat_high a wa b p s ha⟩
+
+/-- *comp merge of adjacent constants* (`restruct`): the merged constant has the two constants as its slices -/
+theorem comp_merge (a wa b wb : Nat) (ha : a < 2 ^ wa) (hb : b < 2 ^ wb) :
+    bitsOf (cat a wa b) 0 wa = a ∧ bitsOf (cat a wa b) wa wb = b ∧ cat a wa b < 2 ^ (wa + wb) :=
+  ⟨cat_low a wa b ha, cat_high a wa b wb ha hb, cat_lt a wa b wb ha hb⟩
+
+/-- *comp cut*: splitting a part in two at any position keeps its value -/
+theorem comp_cut (a k : Nat) : cat (bitsOf a 0 k) k (a >>> k) = a := Bits.cat_split a k
+
+/-- slices distribute over the logic operators and low slices over `+` (`slc.simplify` on an `op`) -/
+theorem slice_logic (a b p s : Nat) :
+    bitsOf (a &&& b) p s = bitsOf a p s &&& bitsOf b p s ∧ bitsOf (a ||| b) p s = bitsOf a p s ||| bitsOf b p s ∧
+    bitsOf (a ^^^ b) p s = bitsOf a p s ^^^ bitsOf b p s := ⟨slice_and a b p s, slice_or a b p s, slice_xor a b p s⟩
+
+theorem slice_add_low (a b w s : Nat) (h : s ≤ w) :
+    bitsOf ((a + b) % 2 ^ w) 0 s = (bitsOf a 0 s + bitsOf b 0 s) % 2 ^ s := Bits.slice_add_low a b w s h
+
+/-- *zero / sign extension*: `{ [0:w]→a | [w:n]→0 }` is `a`; `{ [0:w]→a | [w:n]→(a[w-1] ? -1 : 0) }` is the
+    two's complement of the signed reading of `a` on `n` bits -/
+theorem extension (a w xt : Nat) (ha : a < 2 ^ w) :
+    cat a w 0 = a ∧ cat a w (if a.testBit (w - 1) then 2 ^ xt - 1 else 0) = wrap (w + xt) (toInt w a) :=
+  ⟨zext_value a w, sext_value a w xt ha⟩
+
+/-- *tst* rules: equal branches make the condition irrelevant (constant conditions select by definition) -/
+theorem tst_same (c a : Nat) : (if c % 2 = 1 then a else a) = a := Bits.tst_same c a
+
+/-- *bitslice*: a logic operator acts bit by bit -/
+theorem bitslice_logic (a b i : Nat) :
+    bitsOf (a &&& b) i 1 = bitsOf a i 1 &&& bitsOf b i 1 ∧ bitsOf (a ||| b) i 1 = bitsOf a i 1 ||| bitsOf b i 1 ∧
+    bitsOf (a ^^^ b) i 1 = bitsOf a i 1 ^^^ bitsOf b i 1 := ⟨and_bit a b i, or_bit a b i, xor_bit a b i⟩
+
+/-! ## constant folding: the `cst` operator table computes the reference meaning (`cstOut` = `(value, size)`) -/
+
+theorem fold_add (lv ls : Nat) (lf : Bool) (rv : Nat) (rf sg : Bool) (hl : lv < 2 ^ ls) (hr : rv < 2 ^ ls) :
+    cstOut (cstApi Op.add lv ls lf rv ls rf) = some (binSem Op.add sg ls lv rv, ls) := cst_add lv ls lf rv rf sg hl hr
+theorem fold_sub (lv ls : Nat) (lf : Bool) (rv : Nat) (rf sg : Bool) (hl : lv < 2 ^ ls) (hr : rv < 2 ^ ls) :
+    cstOut (cstApi Op.sub lv ls lf rv ls rf) = some (binSem Op.sub sg ls lv rv, ls) := cst_sub lv ls lf rv rf sg hl hr
+theorem fold_mul (lv ls : Nat) (lf : Bool) (rv : Nat) (rf sg : Bool) (hl : lv < 2 ^ ls) (hr : rv < 2 ^ ls) :
+    cstOut (cstApi Op.mul lv ls lf rv ls rf) = some (binSem Op.mul sg ls lv rv, ls) := cst_mul lv ls lf rv rf sg hl hr
+/-- widening multiply, `/`, `%`, ordered comparisons: for operands with ONE declared signedness -/
+theorem fold_mul2 (lv ls rv : Nat) (sg : Bool) :
+    cstOut (cstApi Op.mul2 lv ls sg rv ls sg) = some (binSem Op.mul2 sg ls lv rv, 2 * ls) := cst_mul2 lv ls rv sg
+theorem fold_div (lv ls rv : Nat) (sg : Bool) (hl : lv < 2 ^ ls) (h0 : cstValue rv ls sg ≠ 0) :
+    cstOut (cstApi Op.div lv ls sg rv ls sg) = some (binSem Op.div sg ls lv rv, ls) := cst_div lv ls rv sg hl h0
+theorem fold_mod (lv ls rv : Nat) (sg : Bool) (hl : lv < 2 ^ ls) (h0 : cstValue rv ls sg ≠ 0) :
+    cstOut (cstApi Op.mod lv ls sg rv ls sg) = some (binSem Op.mod sg ls lv rv, ls) := cst_mod lv ls rv sg hl h0
+theorem fold_cmp (o : Op) (ho : o = Op.lt ∨ o = Op.le ∨ o = Op.ge ∨ o = Op.gt) (lv ls rv : Nat) (sg : Bool) :
+    cstOut (cstApi o lv ls sg rv ls sg) = some (binSem o sg ls lv rv, 1) := cst_cmp o ho lv ls rv sg
+theorem fold_and (lv ls : Nat) (lf : Bool) (rv : Nat) (rf sg : Bool) (hl : lv < 2 ^ ls) :
+    cstOut (cstApi Op.and lv ls lf rv ls rf) = some (binSem Op.and sg ls lv rv, ls) := cst_and lv ls lf rv rf sg hl
+theorem fold_or (lv ls : Nat) (lf : Bool) (rv : Nat) (rf sg : Bool) (hl : lv < 2 ^ ls) (hr : rv < 2 ^ ls) :
+    cstOut (cstApi Op.or lv ls lf rv ls rf) = some (binSem Op.or sg ls lv rv, ls) := cst_or lv ls lf rv rf sg hl hr
+theorem fold_xor (lv ls : Nat) (lf : Bool) (rv : Nat) (rf sg : Bool) (hl : lv < 2 ^ ls) (hr : rv < 2 ^ ls) :
+    cstOut (cstApi Op.xor lv ls lf rv ls rf) = some (binSem Op.xor sg ls lv rv, ls) := cst_xor lv ls lf rv rf sg hl hr
+/-- shifts of constants by ANY amount (amount of any width, read unsigned) -/
+theorem fold_lsl (lv ls : Nat) (lf : Bool) (rv rs : Nat) (rf sg : Bool) (hl : lv < 2 ^ ls) :
+    cstOut (cstApi Op.lsl lv ls lf rv rs rf) = some (binSem Op.lsl sg ls lv rv, ls) := cst_lsl lv ls lf rv rs rf sg hl
+theorem fold_lsr (lv ls rv rs : Nat) (rf sg : Bool) (hl : lv < 2 ^ ls) :
+    cstOut (cstApi Op.lsr lv ls false rv rs rf) = some (binSem Op.lsr sg ls lv rv, ls) := cst_lsr lv ls rv rs rf sg hl
+theorem fold_asr (lv ls rv rs : Nat) (rf sg : Bool) :
+    cstOut (cstApi Op.asr lv ls true rv rs rf) = some (binSem Op.asr sg ls lv rv, ls) := cst_asr lv ls rv rs rf sg
+theorem fold_eq (lv ls : Nat) (lf : Bool) (rv : Nat) (rf sg : Bool) :
+    cstOut (cstApi Op.eq lv ls lf rv ls rf) = some (binSem Op.eq sg ls lv rv, 1) := cst_eq lv ls lf rv rf sg
+theorem fold_neq (lv ls : Nat) (lf : Bool) (rv : Nat) (rf sg : Bool) :
+    cstOut (cstApi Op.neq lv ls lf rv ls rf) = some (binSem Op.neq sg ls lv rv, 1) := cst_neq lv ls lf rv rf sg
+/-- the explicitly unsigned comparisons: the repaired helpers clear both sign flags before comparing -/
+theorem fold_ltu (lv ls rv : Nat) (sg : Bool) :
+    cstOut (cstApi Op.lt lv ls false rv ls false) = some (binSem Op.ltu sg ls lv rv, 1) := cst_ltu lv ls rv sg
+theorem fold_geu (lv ls rv : Nat) (sg : Bool) :
+    cstOut (cstApi Op.ge lv ls false rv ls false) = some (binSem Op.geu sg ls lv rv, 1) := cst_geu lv ls rv sg
+/-- the unchanged tree sets both sign flags in `ltu`: `0x80000000 <. 1` evaluates to 1 -/
+theorem ltu_unfixed_is_wrong :
+    cstOut (cstApi Op.lt 0x80000000 32 true 1 32 true) ≠ some (binSem Op.ltu false 32 0x80000000 1, 1) :=
+  ltu_signed_is_wrong
+theorem fold_neg (v s : Nat) (f : Bool) (h : v < 2 ^ s) : wrap s (-(cstValue v s f)) = unSem Op.sub s v := cst_neg v s f h
+theorem fold_not (v s : Nat) (h : v < 2 ^ s) : wrap s ((mask s - v % 2 ^ s : Nat) : Int) = unSem Op.not s v := cst_not v s h
+/-- rotations of a constant by a constant amount (amount reduced modulo the width) -/
+theorem fold_ror (a w n : Nat) (ha : a < 2 ^ w) :
+    ((a >>> (n % w)) ||| ((a <<< (w - n % w)) % 2 ^ w)) = binSem Op.ror false w a n := ror_formula a w n ha
+theorem fold_rol (a w n : Nat) (ha : a < 2 ^ w) :
+    (((a <<< (n % w)) % 2 ^ w) ||| (a >>> (w - n % w))) = binSem Op.rol false w a n := rol_formula a w n ha
+
+/-! ## evaluation and simplification: what the structural induction gives today
+
+`simplify_sound_partial` is the finished fragment of the induction `oper_sound`/`simplify_sound`/`eval_sound`:
+every function of the rewrite system and `eval`, for every fuel, option, complexity oracle and environment,
+returns a WELL-FORMED expression of the SAME WIDTH as the reference meaning demands (so a constant result
+`cst v w` satisfies `v < 2^w` with `w` the dictated width).  Missing (not proved, covered by the
+correspondence tie and the reference evaluator on every run): that the VALUE of the result is the ideal value
+of the input — i.e. threading the per-rule lemmas above through `op.simplify`/`eqn2_helpers`/`comp.__setitem__`
+(`ideal ρ (simplify e) = ideal ρ e` under `WF e`, `SignOK e`, `NoRenderClash e`), case by case:
+`normL`/`normR` (reassoc_pm_*), `eqn2cst` (op_zero_*, mask_to_slice, sh*_to_comp, bitslice_logic),
+`eqn2snd` (merge_consts, eq_bit, comp distribution), `eqn2tail` (x_op_x), `eqn1` (neg_of_sum, not_cond),
+`setitem`/`cut`/`restruct`/`getitem` (comp_cut, comp_merge, slice_of_comp), `extendExp` (extension). -/
+theorem simplify_sound_partial (cfg : Cfg) (fuel : Nat) (opts : Opts) (e r : Expr) (he : WF e)
+    (h : simplify cfg fuel opts e = .ok r) :
+    WF r ∧ r.size = e.size ∧ (∀ v s f, r = .cst v s f → v < 2 ^ s ∧ s = e.size) := by
+  obtain ⟨h1, h2⟩ := (widthIH_all cfg fuel).simplify opts e he r h
+  refine ⟨h1, h2, ?_⟩
+  intro v s f hr
+  subst hr
+  simp only [WF] at h1
+  exact ⟨h1.2, h2⟩
+
+theorem eval_sound_partial (cfg : Cfg) (fuel : Nat) (env : Env) (henv : EnvOK env) (e r : Expr) (he : WF e)
+    (h : eval cfg fuel env e = .ok r) :
+    WF r ∧ r.size = e.size ∧ (∀ v s f, r = .cst v s f → v < 2 ^ s ∧ s = e.size) := by
+  obtain ⟨h1, h2⟩ := eval_width cfg env henv fuel e he r h
+  refine ⟨h1, h2, ?_⟩
+  intro v s f hr
+  subst hr
+  simp only [WF] at h1
+  exact ⟨h1.2, h2⟩
+
+/-! ### non-vacuity -/
+
+example : binSem Op.and false 32 0x12345678 0xff00 = (bitsOf 0x12345678 8 8) <<< 8 := by decide
+example : maskBounds 0xff00 = some (8, 15) := by decide +kernel
+example : Op.pm Op.sub Op.add = some Op.sub := rfl
+example : notop Op.lt = some Op.ge := rfl
+example : cstOut (cstApi Op.lt 0x80000000 32 false 1 32 false) = some (0, 1) := by decide +kernel
+
 end Amoco.C01
